@@ -1,4 +1,4 @@
-"""Bounded contract checks for C03 (and the read(write(M)) part of C02): NM-TRAN control streams
+"""Bounded contract checks for C03 (and the regenerated-code part of C02): NM-TRAN control streams
 round-trip losslessly; edits touch only what changed.
 
 Every check evaluates a contract taken from the property statement on the REAL pharmpy code over an
@@ -6,9 +6,22 @@ exhaustively enumerated finite domain (no sampling).  The references in this fil
 generator that knows the record chunks it emitted, line based record splitter, line classifier for
 abbreviated code) are written independently of pharmpy.
 
-  bounded_roundtrip       str(NMTranParser().parse(T)) == T and str(create_record(R)) == R
-  bounded_update_source   update_source() of an unmodified model is the identity on the code; after a
-                          single-component edit all records / lines not expressing it are preserved
+  bounded_roundtrip       str(NMTranParser().parse(T)) == T for generated control streams (2 base models x
+                          subsets of layout variants) and str(create_record(R)) == R for generated single
+                          record texts (per record kind: sequences of options/values/code lines x
+                          separators x tails); records are split at every $-line and get their canonical
+                          name.  C03 quantifies over ACCEPTED texts: a syntax error on a text that uses one
+                          of the exotic features of feature_tag() is outside the precondition (counted under
+                          'rejected'); a syntax error on any other generated text fails C_ACCEPT; any other
+                          exception fails C_INTERNAL.
+  bounded_update_source   (a) update_source() of an unmodified model is the identity on the code (and on a
+                          second call); (b) after ONE edit through pharmpy.modeling / model.replace every
+                          record of another kind is preserved exactly and in order (one clause per edit and
+                          record kind, so that a known finding does not mask the other kinds), $THETA/$OMEGA/
+                          $SIGMA records not holding the edited parameter are preserved, inside the edited
+                          record everything but the edited value is preserved, and inside an edited code
+                          record every other line (statement, comment, verbatim, blank) is preserved exactly
+                          and in order; the generated code is stable under update_source and re-reading.
 """
 
 import itertools
@@ -915,6 +928,8 @@ C_READ = 'model.code of a freshly read model equals the text'
 C_IDENT = 'update_source() of an unmodified model leaves the code unchanged byte for byte'
 C_IDEM = 'a second update_source() leaves the code unchanged'
 C_EFFECT = 'the edit is expressed in the new code (the code changes)'
+C_EDIT_IDEM = 'after an edit a second update_source() leaves the new code unchanged'
+C_REREAD = 'the code generated after an edit, read as a new model, is unchanged by update_source()'
 
 # Reference: canonical kinds of NM-TRAN record names (prefix rule, >= 3 letters, plus synonyms)
 _REF_NAMES = (
@@ -945,9 +960,8 @@ def ref_split(text):
     cur = []
     for line in text.splitlines(keepends=True):
         if re.match(r'[ \t]*\$', line):
-            if cur or not out:
-                if cur:
-                    out.append(''.join(cur))
+            if cur:
+                out.append(''.join(cur))
             cur = [line]
         else:
             cur.append(line)
@@ -1165,10 +1179,14 @@ EDIT_LABEL = {
     'set_est': 'set_estimation_step', 'add_est': 'add_estimation_step', 'add_cov': 'add_parameter_uncertainty_step',
     'remove_cov': 'remove_parameter_uncertainty_step', 'rename': 'rename_symbols of one symbol',
 }
+_EST_KINDS = ('ESTIMATION', 'COVARIANCE', 'TABLE')
 EDIT_KINDS = {
     'set_theta': ('THETA',), 'fix_theta': ('THETA',), 'set_omega': ('OMEGA',), 'fix_omega': ('OMEGA',),
-    'set_sigma': ('SIGMA',), 'fix_sigma': ('SIGMA',), 'set_est': ('ESTIMATION',), 'add_est': ('ESTIMATION',),
-    'add_cov': ('COVARIANCE',), 'remove_cov': ('COVARIANCE',),
+    # NOTE an EstimationStep of the model holds the $ESTIMATION options, the parameter uncertainty method ($COVARIANCE)
+    # and the requested predictions/residuals (last $TABLE): all three record kinds express the edited component, so
+    # C03 does not demand that they are preserved (demanding it was a false alarm, see DESIGN.md)
+    'set_sigma': ('SIGMA',), 'fix_sigma': ('SIGMA',), 'set_est': _EST_KINDS, 'add_est': _EST_KINDS,
+    'add_cov': _EST_KINDS, 'remove_cov': _EST_KINDS,
 }
 IN_PLACE = ('set_theta', 'fix_theta', 'set_omega', 'fix_omega', 'set_sigma', 'fix_sigma', 'modify', 'remove', 'insert',
             'set_est', 'rename')
@@ -1195,7 +1213,7 @@ def _rename_adjacent(old, word):
     return False
 
 
-def check_edit(text, edit, info):
+def check_edit(text, edit, info, reread=False):
     """Contract of update_source after one edit.  info describes where the edited component lives in
     the generated text: {'code_kind', 'line' / 'lo','hi' / 'symbol', 'rec_ordinal', 'token'}.
     Returns list of (fid, clause, detail)."""
@@ -1206,12 +1224,19 @@ def check_edit(text, edit, info):
     try:
         model = read_model_from_string(text)
         edited = apply_edit(model, edit)
-        new_text = edited.update_source().code
+        updated = edited.update_source()
+        new_text = updated.code
+        again = updated.update_source().code
+        reread_text = read_model_from_string(new_text).update_source().code if reread else new_text
     except Exception as e:
         return [(FID_UPDATE, C_NOEXC, f'{label}: {type(e).__name__}: {str(e)[:200]!r}')]
     fails = []
     if new_text == text:
         fails.append((FID_UPDATE, C_EFFECT, f'{label}: code unchanged'))
+    if again != new_text:
+        fails.append((FID_UPDATE, C_EDIT_IDEM, f'{label}: ' + _first_diff(new_text, again)))
+    if reread_text != new_text:
+        fails.append((FID_UPDATE, C_REREAD, f'{label}: ' + _first_diff(new_text, reread_text)))
     old = ref_split(text)
     new = ref_split(new_text)
     related = EDIT_KINDS.get(op) or (info['code_kind'],)
@@ -1417,6 +1442,13 @@ def code_edits_plain(base):
 
 
 def gen_us_cases(tier):
+    for case in _gen_us_cases(tier):
+        if case['edit'] is not None and (tier != 'quick' or (not case['flags'] and case.get('decor') is None)):
+            case['reread'] = True
+        yield case
+
+
+def _gen_us_cases(tier):
     quick = tier == 'quick'
     # (a) identity
     for base in ('advan', 'pred'):
@@ -1465,7 +1497,7 @@ def _us_worker(case):
     if edit is None:
         res = check_identity(text)
     else:
-        res = check_edit(text, edit, info)
+        res = check_edit(text, edit, info, reread=bool(case.get('reread')))
     size = len(case['flags']) * 10**6 + len(text)
     return [(f, c, d + f' [case {case}]', case, size) for f, c, d in res], True
 
@@ -1490,10 +1522,12 @@ def bounded_update_source(tier):
         'cases': len(cases),
         'nontrivial': len(cases),
         'bound': f'{n_ident} unmodified models (2 base models x all subsets of <= {2 if tier == "quick" else 3} of '
-        f'{len(MODEL_FLAGS)} layout variants) + {len(cases) - n_ident} single edits: 17 parameter/estimation/covariance '
-        f'edits and 8-13 statement edits x layout variant subsets of size <= {1 if tier == "quick" else 2}, and '
-        f'14 statement edits (change/remove/add/rename at every slot) x all pairs of '
-        f'{len(DECOR_QUICK if tier == "quick" else DECOR_THOROUGH)} comment/verbatim/blank decorations directly above and below',
+        f'{len(MODEL_FLAGS)} layout variants) + {len(cases) - n_ident} single edits: 18 parameter/estimation/covariance '
+        f'edits (each theta, omega, sigma: set_initial_estimates, fix_parameters; set/add_estimation_step; add/remove '
+        f'parameter uncertainty step) and 8-13 statement edits (change/add/remove/rename in $PK, $ERROR, $PRED) x layout '
+        f'variant subsets of size <= {1 if tier == "quick" else 2}, and 14 statement edits (change/remove/add/rename at '
+        f'every slot of a 4+ statement record) x all pairs of {len(DECOR_QUICK if tier == "quick" else DECOR_THOROUGH)} '
+        f'comment/verbatim/blank decorations directly above and below the edited statement',
         'samples': [repr(cases[1]), repr(cases[n_ident + 3]), repr(cases[-1])],
         'fails': _fails_list(fails, 'bounded_update_source_replay'),
     }
